@@ -1,0 +1,19 @@
+//go:build verif
+
+package tasklane
+
+import "sync/atomic"
+
+// VerifHook, when set, is called at protocol steps of the lane goroutines and of
+// PushTask. Only compiled with the "verif" build tag; used by the verification
+// harness to observe and park a goroutine at a chosen step.
+//
+// Points: Q1 queue took a task, Q2 queue counted it, Q3 queue handed it over,
+// W1 worker received a task, W2 worker finished it, P1 PushTask entered.
+var VerifHook atomic.Pointer[func(point string, lane int, task Task)]
+
+func verifPoint(point string, lane int, task Task) {
+	if h := VerifHook.Load(); h != nil {
+		(*h)(point, lane, task)
+	}
+}
